@@ -76,7 +76,8 @@ static void probe(Wd::sbx& sb, const char* tn, mon::Rng& rng)
 // unverified_safe_pointer_because(count): "a raw pointer handed back together with an element count really has that many
 // whole elements inside the sandbox".  The elements a tainted pointer designates are sandbox objects (that is how [], +, ->
 // and malloc_in_sandbox count them), so a count whose last sandbox element ends behind the region must abort, whatever the
-// application's sizeof says; a count for which both layouts fit must be accepted.  (In between either answer is allowed.)
+// application's sizeof says; the raw pointer that comes back has the application's element type, so a count whose last
+// application-sized element ends behind the region must abort too; a count for which both layouts fit must be accepted.
 template<typename T>
 static void usp_probe(Wd::sbx& sb, const char* tn, size_t gsz, mon::Rng& rng)
 {
@@ -99,6 +100,7 @@ static void usp_probe(Wd::sbx& sb, const char* tn, size_t gsz, mon::Rng& rng)
       std::string what = mon::fmt("%s: unverified_safe_pointer_because<%s*>(start=base+%llu, count=%llu): sandbox element %zu bytes (room for %llu), application element %zu bytes (room for %llu)", Cfg::name, tn,
                                   (unsigned long long)off, (unsigned long long)c, gsz, (unsigned long long)room_g, hsz, (unsigned long long)room_h);
       if (!legal_g) { if (!ab) report("unverified_safe_pointer_because", tn, "count-exceeds-whole-sandbox-elements", what); else n_ok++; }
+      else if (!legal_h) { if (!ab) report("unverified_safe_pointer_because", tn, "count-exceeds-whole-elements-of-the-returned-pointer-type", what); else n_ok++; }
       else if (legal_h) { if (ab || raw != reinterpret_cast<const void*>(Wd::base(sb) + off)) report("unverified_safe_pointer_because", tn, "legal-request-aborted", what); else n_ok++; }
     }
   }
